@@ -53,6 +53,19 @@ def _value_ops(v_elt, plain, ns):
     return ops, bad
 
 
+def tri(actual, expected):
+    """Three-valued 'is this value the expected one?': equal -> True; missing / an unrelated value -> False;
+    the expected value wrapped in something (a copy, a conversion) -> None unless the wrapper changes values."""
+    if actual is None:
+        return False
+    if actual == expected:
+        return True
+    if any(s == expected for s in walk(actual)):
+        _ops, bad = _value_ops(actual, expected, None)
+        return False if bad else None
+    return False
+
+
 def sim_loop(prog):
     fr = prog.frame(SIM)
     loops = [lp for lid, lp in prog.loops.items() if lp.func == SIM and "@" not in lid]
@@ -89,13 +102,13 @@ def sim_flow(ctx: Ctx):
            "no loop-carried variable is initialised with initial_states", lhs=str({k: show(v)[:40] for k, v in init.items()})[:300])
     need(st_name is not None, "state variable not found")
     cur = ("carried", lid, st_name)
-    ctx.ob("FLOW:states-stored", rd["states"] == cur, prog.where(res),
+    ctx.ob("FLOW:states-stored", tri(rd["states"], cur), prog.where(res),
            "the states stored for period t are the states the period-t decisions are computed from"
            if rd["states"] == cur else "the stored states are not the states at the start of the iteration",
            lhs=rd["states"], rhs=cur)
     ds = calls_in(tuple(nxt.values()), DSC)
     need(ds, "simulate: create_data_scs not called in the loop")
-    ctx.ob("FLOW:data-space-states", kw(ds[0], "states") == cur, prog.where(ds[0]),
+    ctx.ob("FLOW:data-space-states", tri(kw(ds[0], "states"), cur), prog.where(ds[0]),
            "the data state-choice space is built from the current states" if kw(ds[0], "states") == cur else
            "create_data_scs does not receive the current states", lhs=kw(ds[0], "states") or "missing", rhs=cur)
     # ---- next_state call
@@ -103,13 +116,13 @@ def sim_flow(ctx: Ctx):
     need(ns, "simulate: next_state(...) is not called in the loop")
     ns = ns[0]
     splats = [v for k, v in ns[3] if k is None]
-    ctx.ob("FLOW:next-state-gets-current-states", cur in splats, prog.where(ns),
+    ctx.ob("FLOW:next-state-gets-current-states", True if cur in splats else max((tri(x, cur) for x in splats), key=lambda v: (v is True, v is None), default=False), prog.where(ns),
            "the transition functions receive the period-t states" if cur in splats else
            "next_state does not receive the states of this period", lhs=show(ns)[:200])
-    ctx.ob("FLOW:next-state-gets-reported-choices", rd["choices"] in splats, prog.where(ns),
+    ctx.ob("FLOW:next-state-gets-reported-choices", True if rd["choices"] in splats else max((tri(x, rd["choices"]) for x in splats), key=lambda v: (v is True, v is None), default=False), prog.where(ns),
            "the transition functions receive exactly the choices that are reported" if rd["choices"] in splats
            else "next_state receives other choices than the reported ones", lhs=show(ns)[:200], rhs=show(rd["choices"])[:200])
-    ctx.ob("FLOW:next-state-params", kw(ns, "params") == P("params"), prog.where(ns),
+    ctx.ob("FLOW:next-state-params", tri(kw(ns, "params"), P("params")), prog.where(ns),
            "the transition functions receive the params of this call" if kw(ns, "params") == P("params") else
            "next_state does not receive the caller's params", lhs=kw(ns, "params") or "missing")
     pk = kw(ns, "_period")
@@ -120,6 +133,16 @@ def sim_flow(ctx: Ctx):
         if callee_name(pk) == "jax.numpy.full":
             a0, a1 = (pk[2][1] if len(pk[2]) > 1 else kw(pk, "fill_value")), pk[2][0]
         okp = a0 is not None and affine(a0, lv) == (1, 0) and a1 is not None and _is_len_of_states(a1)
+    if not okp:
+        # REFUTED only if a period expression is recognised and it is not the loop's period (t+1, a constant, missing)
+        cand = pk[2][0] if (pk is not None and pk[0] == "call" and pk[2]) else pk
+        af = affine(cand, lv) if cand is not None else None
+        if pk is None or (af is not None and af != (1, 0)) or (cand is not None and cand[0] == "const"):
+            okp = False
+        elif pk is not None and callee_name(pk) in ("jax.numpy.repeat", "jax.numpy.full", "jax.numpy.tile") and af == (1, 0):
+            okp = None  # the right period, an unrecognised number of entries
+        else:
+            okp = None
     ctx.ob("FLOW:next-state-period", okp, prog.where(ns),
            "_period passed to the transition functions is the current period, one entry per agent" if okp else
            f"_period passed to next_state is {show(pk)[:80] if pk else 'missing'} (required: the loop's period, per agent)",
@@ -193,7 +216,7 @@ def sim_flow(ctx: Ctx):
             ctx.ob("FLOW:policy-uses-dense-argmax", ok_d, prog.where(fcp[0]),
                    "the continuous policy is that of the optimal dense choice" if ok_d else
                    "filter_ccv_policy is not indexed by the dense arg-max", lhs=kw(fcp[0], "dense_argmax") or "missing")
-    ctx.ob("FLOW:continuous-problem-params", kw(scp, "params") == P("params"), prog.where(scp),
+    ctx.ob("FLOW:continuous-problem-params", tri(kw(scp, "params"), P("params")), prog.where(scp),
            "the continuation values are computed with the params of this call", lhs=kw(scp, "params") or "missing")
     # ---- order sources of index <-> grid pairs (AX6)
     rn = []
